@@ -58,6 +58,35 @@ ALLOW = {
 }
 
 
+def err1_subset(P, R, L, prefixes, rule="ERR-1"):
+    """ERR-1 restricted to the bodies whose path starts with one of `prefixes` (same engine, same allow-table)."""
+    n = 0
+    for p, b in sorted(P.bodies.items()):
+        if not any(p.startswith(x) for x in prefixes):
+            continue
+        sites = [cs for cs in err.result_sites(b)
+                 if not (cs.name in (err.TRY_BRANCH, err.FROM_RESIDUAL) or cs.name in err.ALIASING or cs.name in err.CHAINING)]
+        if not sites:
+            continue
+        R.analysed(b)
+        findings = {}
+        for cs in sites:
+            n += 1
+            cat, fs = err.classify_site(P, b, cs)
+            for f in fs:
+                findings.setdefault(f.key(), []).append(f)
+        bad = 0
+        for k, fl in sorted(findings.items()):
+            if k in ALLOW:
+                continue
+            bad += 1
+            R.check(rule, k, False, fl[0].site.where(), "an observed Err is returned, recorded or stored on every path", fl[0].detail)
+        if not bad:
+            R.check(rule, p, True, "%s:%d" % (b.file, b.line_lo), "every Result site is propagated / asserted / recorded", "%d result sites" % len(sites))
+    R.call_sites += n
+    return n
+
+
 def err1(P, R, L):
     R.clause("ERR-1", "for every call in the lib crate whose result is a Result: it is propagated (`?`/returned), asserted, "
              "passed on, or tested such that from every Err edge each path to a `return` writes Err to the return place, "
